@@ -58,6 +58,28 @@ Theorem C17_queue_local : forall cfg s a,
 Proof. exact step_queue_local. Qed.
 Print Assumptions C17_queue_local.
 
+(* time passing is a stutter step: a tick of a crontab that no enabled binding uses (the way the
+   harness renders "the operator is left alone for a while") changes nothing in any reachable
+   state - an idle period of any length leaves the state as it is, so whatever holds before it
+   (a stopped worker stays stopped, an empty queue starts nothing) holds after it *)
+Theorem C17_time_is_stutter : forall cfg acts c,
+  let s := exec cfg acts init in
+  sched_tasks cfg (sched_on s) c = [] -> step cfg s (Tick c) = s.
+Proof. intros cfg acts c s E. exact (time_is_stutter cfg s c (reachable_inv cfg acts) E). Qed.
+Print Assumptions C17_time_is_stutter.
+
+Theorem C17_idle_period_is_stutter : forall cfg acts c n,
+  let s := exec cfg acts init in
+  sched_tasks cfg (sched_on s) c = [] -> exec cfg (repeat (Tick c) n) s = s.
+Proof. exact idle_period_is_stutter. Qed.
+Print Assumptions C17_idle_period_is_stutter.
+
+Example C17_idle_hyp_met :
+  let cfg := [mkHook 1 false None [] [mkSb 1 1 0 false 1]] in
+  let s := exec cfg [Boot; Tick 1]%N init in
+  sched_tasks cfg (sched_on s) 999 = [] /\ queues s <> [].
+Proof. vm_compute. split; [reflexivity | discriminate]. Qed.
+
 (* non-vacuity: shutdown with one execution open and a task waiting; afterwards a tick
    arrives and the execution ends: nothing else starts *)
 Example C17_hyp_met :
